@@ -1,2 +1,177 @@
-/- C05 — theorems under construction -/
-import MPilot.Model.Eems
+/-
+C05 — results keep the input shape; cells are computed independently.
+
+`shape_preserved` : every data command that succeeds returns an array with exactly the shape of its first input
+                    (all inputs have that shape, or the command fails with MixedArrayShapes — see C07), for any rank.
+-/
+import MPilot.Lemmas.ArrR
+
+namespace MPilot.C05
+open MPilot
+
+theorem mapCells_shape (f : Cell → Cell) (a : Arr) : (a.mapCells f).shape = a.shape := rfl
+theorem insure_shape (lo hi : Rat) (a : Arr) : (a.insure lo hi).shape = a.shape := rfl
+theorem linMap_shape (x1 x2 y1 y2 : Rat) (a : Arr) : (linMap x1 x2 y1 y2 a).shape = a.shape := rfl
+theorem curveArr_shape (a : Arr) (pts) : (curveArr a pts).shape = a.shape := rfl
+
+theorem foldArr_shape (f : Cell → Cell → Cell) (dt : DType) (a : Arr) (rest : List Arr) :
+    (foldArr f dt a rest).shape = a.shape := by
+  unfold foldArr
+  have : ∀ acc : Arr, (rest.foldl (fun acc a => Arr.zip f dt acc a) acc).shape = acc.shape := by
+    induction rest with
+    | nil => intro acc; rfl
+    | cons b t ih => intro acc; rw [List.foldl_cons, ih]; rfl
+  rw [this]
+
+theorem weightedAcc_shape (dt : DType) (a : Arr) (t : List Arr) (w : Num) (wr : List Num) :
+    (weightedAcc (w :: wr) (a :: t) dt).shape = a.shape := by
+  simp only [weightedAcc]
+  have : ∀ (l : List (Num × Arr)) (acc : Arr),
+      (l.foldl (fun acc (wa : Num × Arr) => Arr.zip (Cell.bin (· + ·)) dt acc (wa.2.mapCells (Cell.sc (· * wa.1.val)))) acc).shape = acc.shape := by
+    intro l
+    induction l with
+    | nil => intro acc; rfl
+    | cons b t ih => intro acc; rw [List.foldl_cons, ih]; rfl
+  rw [this]
+
+theorem fuzzyClamp_shape {x : Except Err Arr} {r : Arr} {s : List Nat} (h : fuzzyClamp x = .ok r)
+    (hx : ∀ y, x = .ok y → y.shape = s) : r.shape = s := by
+  unfold fuzzyClamp at h
+  cases x with
+  | error e => simp [Except.map] at h
+  | ok a => simp only [Except.map, Except.ok.injEq] at h; subst h; exact hx a rfl
+
+theorem ok_inj {a b : Arr} (h : (Except.ok a : Except Err Arr) = .ok b) : a = b := by injection h
+
+/-- split every `if`/`match` of hypothesis `h : … = .ok r`, discard error branches, close `ok` branches by `tac` -/
+macro "ok_cases" h:ident " => " tac:tacticSeq : tactic =>
+  `(tactic| (repeat' (first | split at $h:ident | (dsimp only at $h:ident))
+             all_goals first
+               | exact absurd $h:ident (eRaw_ne_ok _ _)
+               | exact absurd $h:ident (eMp_ne_ok _ _ _)
+               | ($tac)))
+
+theorem zScoreBody_shape {sqrt a tt ft s e r} (h : zScoreBody sqrt a tt ft s e = .ok r) : r.shape = a.shape := by
+  unfold zScoreBody at h
+  ok_cases h => (have := ok_inj h; subst this; rfl)
+
+theorem catBody_shape {a raw nv d r} (h : catBody a raw nv d = .ok r) : r.shape = a.shape := by
+  unfold catBody at h
+  ok_cases h => (have := ok_inj h; subst this; rfl)
+
+theorem curveBody_shape {ref a raw nv r} (h : curveBody ref a raw nv = .ok r) : r.shape = a.shape := by
+  unfold curveBody at h
+  ok_cases h => (have := ok_inj h; subst this; rfl)
+
+theorem curveZBody_shape {sqrt a z nv r} (h : curveZBody sqrt a z nv = .ok r) : r.shape = a.shape := by
+  unfold curveZBody at h
+  ok_cases h => (have := ok_inj h; subst this; rfl)
+
+theorem meanToMidBody_shape {a iz nv r} (h : meanToMidBody a iz nv = .ok r) : r.shape = a.shape := by
+  unfold meanToMidBody at h
+  ok_cases h => exact curveBody_shape h
+
+theorem stackMap_shape (f) (a : Arr) (t : List Arr) : (stackMap (a :: t) f).shape = a.shape := rfl
+
+theorem naryFold_shape {ref g a t r} (h : naryFold ref g (a :: t) = .ok r) : r.shape = a.shape := by
+  unfold naryFold at h
+  obtain ⟨_, _, h⟩ := bind_ok h
+  have := ok_inj h; subst this
+  exact foldArr_shape _ _ _ _
+
+theorem go_shape {a tt ft hl r} (h : exec.go a tt ft hl = .ok r) : r.shape = a.shape := by
+  unfold exec.go at h
+  ok_cases h => exact fuzzyClamp_shape h (fun y hy => by have := ok_inj hy; subst this; rfl)
+
+theorem clamp_of {x : Except Err Arr} {r : Arr} {s : List Nat} (hx : ∀ y, x = .ok y → y.shape = s)
+    (h : fuzzyClamp x = .ok r) : r.shape = s := fuzzyClamp_shape h hx
+
+/-- **C05 (shape).** A data command that succeeds returns an array of exactly the shape of its first input, for any
+number of dimensions.  (Inputs of differing shapes are rejected with `MixedArrayShapes`, so this is "the shape of its inputs".) -/
+theorem shape_preserved (sqrt : Rat → Rat) (c : DataCmd) (a : Arr) (t : List Arr) (r : Arr)
+    (h : exec sqrt c (a :: t) = .ok r) : r.shape = a.shape := by
+  cases c
+  -- two-input commands
+  case aMinusB =>
+    rcases t with _ | ⟨b, _ | ⟨_, _⟩⟩ <;> simp only [exec] at h <;> try exact absurd h (eRaw_ne_ok _ _)
+    obtain ⟨_, _, h⟩ := bind_ok h
+    have := ok_inj h; subst this; rfl
+  case aDividedByB =>
+    rcases t with _ | ⟨b, _ | ⟨_, _⟩⟩ <;> simp only [exec] at h <;> try exact absurd h (eRaw_ne_ok _ _)
+    obtain ⟨_, _, h⟩ := bind_ok h
+    have := ok_inj h; subst this; rfl
+  -- n-ary commands
+  case sum => simp only [exec] at h; exact naryFold_shape h
+  case multiply => simp only [exec] at h; exact naryFold_shape h
+  case minimum => simp only [exec] at h; exact naryFold_shape h
+  case maximum => simp only [exec] at h; exact naryFold_shape h
+  case fuzzyOr => simp only [exec] at h; exact clamp_of (fun _ hy => naryFold_shape hy) h
+  case fuzzyAnd => simp only [exec] at h; exact clamp_of (fun _ hy => naryFold_shape hy) h
+  case mean =>
+    simp only [exec] at h
+    obtain ⟨_, _, h⟩ := bind_ok h
+    have := ok_inj h; subst this
+    exact foldArr_shape _ _ _ _
+  case fuzzyUnion =>
+    simp only [exec] at h
+    obtain ⟨_, _, h⟩ := bind_ok h
+    exact clamp_of (fun y hy => by have := ok_inj hy; subst this; exact foldArr_shape _ _ _ _) h
+  case weightedSum w =>
+    simp only [exec] at h
+    split at h
+    next => exact absurd h (eMp_ne_ok _ _ _)
+    next hne =>
+      obtain ⟨_, _, h⟩ := bind_ok h
+      have := ok_inj h; subst this
+      cases w with
+      | nil => simp at hne
+      | cons w0 wr => exact weightedAcc_shape _ _ _ _ _
+  case weightedMean w =>
+    simp only [exec] at h
+    split at h
+    next => exact absurd h (eMp_ne_ok _ _ _)
+    next hne =>
+      obtain ⟨_, _, h⟩ := bind_ok h
+      have := ok_inj h; subst this
+      cases w with
+      | nil => simp at hne
+      | cons w0 wr => exact weightedAcc_shape _ _ _ _ _
+  case fuzzyWeightedUnion w =>
+    simp only [exec] at h
+    split at h
+    next => exact absurd h (eMp_ne_ok _ _ _)
+    next hne =>
+      obtain ⟨_, _, h⟩ := bind_ok h
+      refine clamp_of (fun y hy => ?_) h
+      have := ok_inj hy; subst this
+      cases w with
+      | nil => simp at hne
+      | cons w0 wr => exact weightedAcc_shape _ _ _ _ _
+  case fuzzySelectedUnion sel k =>
+    simp only [exec] at h
+    obtain ⟨_, _, h⟩ := bind_ok h
+    ok_cases h => exact clamp_of (fun y hy => by have := ok_inj hy; subst this; rfl) h
+  case fuzzyXOr =>
+    simp only [exec] at h
+    obtain ⟨_, _, h⟩ := bind_ok h
+    ok_cases h => exact clamp_of (fun y hy => by have := ok_inj hy; subst this; rfl) h
+  -- single-input commands
+  all_goals (rcases t with _ | ⟨_, _⟩ <;> simp only [exec] at h <;> try exact absurd h (eRaw_ne_ok _ _))
+  case copy => have := ok_inj h; subst this; rfl
+  case normalize s e => ok_cases h => (have := ok_inj h; subst this; rfl)
+  case normalizeZScore tt ft s e => exact zScoreBody_shape h
+  case normalizeCat raw nv d => exact catBody_shape h
+  case normalizeCurve raw nv => exact curveBody_shape h
+  case normalizeMeanToMid iz nv => exact meanToMidBody_shape h
+  case normalizeCurveZScore z nv => exact curveZBody_shape h
+  case cvtToFuzzy tt ft dir => ok_cases h => exact go_shape h
+  case cvtToFuzzyZScore tt ft => exact clamp_of (fun _ hy => zScoreBody_shape hy) h
+  case cvtToFuzzyCat raw fz d => exact clamp_of (fun _ hy => catBody_shape hy) h
+  case cvtToFuzzyCurve raw fz => exact clamp_of (fun _ hy => curveBody_shape hy) h
+  case cvtToFuzzyMeanToMid iz fz => exact clamp_of (fun _ hy => meanToMidBody_shape hy) h
+  case cvtToFuzzyCurveZScore z fz => exact clamp_of (fun _ hy => curveZBody_shape hy) h
+  case cvtToBinary th dir => ok_cases h => exact clamp_of (fun y hy => by have := ok_inj hy; subst this; rfl) h
+  case fuzzyNot => exact clamp_of (fun y hy => by have := ok_inj hy; subst this; rfl) h
+  case cvtFromFuzzy tt ft => ok_cases h => (have := ok_inj h; subst this; rfl)
+
+end MPilot.C05
